@@ -333,3 +333,10 @@ def finish(ctx, lean_info, level_text, assumptions):
     }
     json.dump(ev, open(os.path.join(evdir, f"{ctx.prop}.json"), "w"), indent=1, default=jsonable)
     return code
+
+
+def gstate():
+    """complete snapshot of numpy's global generator (the key array alone changes only once per 624 words)"""
+    import numpy as np
+    st = np.random.get_state()
+    return (st[0], st[1].tobytes(), int(st[2]), int(st[3]), float(st[4]))
